@@ -788,7 +788,7 @@ func runC20(w *World, r *Report) {
 			}
 		})
 		if nret == 0 {
-			undecidedf("C20.workflow-error-sticks: no error return of Workflow.compile lies behind an applying call")
+			r.Deferred = append(r.Deferred, fmt.Sprintf("C20.workflow-error-sticks: no error return of Workflow.compile lies behind an applying call"))
 		}
 	}
 
@@ -1715,7 +1715,7 @@ func runC20(w *World, r *Report) {
 			}
 		}
 		if n < 2 {
-			undecidedf("C20.chain-tail-order-free: only %d stores of Chain.preNodeKeys found", n)
+			r.Deferred = append(r.Deferred, fmt.Sprintf("C20.chain-tail-order-free: only %d stores of Chain.preNodeKeys found", n))
 		}
 	}
 
@@ -1767,7 +1767,7 @@ func runC20(w *World, r *Report) {
 			})
 		}
 		if n < 2 {
-			undecidedf("C20.runnable-read-only-where-set: only %d reads through graphNode.cr on the Add* paths", n)
+			r.Deferred = append(r.Deferred, fmt.Sprintf("C20.runnable-read-only-where-set: only %d reads through graphNode.cr on the Add* paths", n))
 		}
 	}
 
@@ -1848,7 +1848,7 @@ func runC20(w *World, r *Report) {
 			}
 		}
 		if nw == 0 {
-			undecidedf("C20.chain-sticky: no write of Chain.err found")
+			r.Deferred = append(r.Deferred, fmt.Sprintf("C20.chain-sticky: no write of Chain.err found"))
 		}
 	}
 	// compile: the sticky chain error is looked at before anything else — also before the "END already added" shortcut,
@@ -1927,7 +1927,7 @@ func runC20(w *World, r *Report) {
 			}
 		}
 		if n < 3 {
-			undecidedf("C20.chain-sticky: only %d graph.addNode calls in Chain methods", n)
+			r.Deferred = append(r.Deferred, fmt.Sprintf("C20.chain-sticky: only %d graph.addNode calls in Chain methods", n))
 		}
 	}
 }
